@@ -292,7 +292,7 @@ def guarded(case):
 
 
 def replay(case):
-    return run_case(case)
+    return common.bounded_map(guarded, [case], 1, 90)[0]      # in a worker: a hang inside the library is a verdict
 
 
 def run(chk):
@@ -325,8 +325,7 @@ def run(chk):
     for how in ('normal', 'ValueError', 'custom', 'class-not-supported', 'event-handling', 'timeout'):
         for when in (1, 2):
             cases.append({'kind': 'exit', 'how': how, 'when': when})
-    with multiprocessing.Pool(min(8, os.cpu_count() or 1)) as pool:
-        results = pool.map(guarded, cases, chunksize=4)
+    results = common.bounded_map(guarded, cases, min(8, os.cpu_count() or 1), 90)
     for case, v in zip(cases, results):
         if v and v.startswith('harness:'):
             common.raise_for(v[len('harness:'):])
@@ -335,7 +334,7 @@ def run(chk):
         if v:
             # liveness-type verdicts on real threads count only if they reproduce
             if common.timing_verdict(v):
-                again = [run_case(case) for _ in range(2)]
+                again = common.bounded_map(guarded, [case, case], 2, 90)
                 if not all(again):
                     chk.count('timing-verdict-not-reproduced')
                     continue
